@@ -6,3 +6,4 @@ import SoxrModel.Properties.C15
 #print axioms Soxr.Properties.C15.delay_zero_drained
 #print axioms Soxr.Properties.C15.delay_gt_neg_one
 #print axioms Soxr.Properties.C15.delay_gt_neg_one_every_run
+#print axioms Soxr.Properties.C15.hearly_every_run
